@@ -472,7 +472,8 @@ class ttensor:
                 V.append(factor.transpose().dot(factor))
             Y = self.core.ttm(V)
             tmp = Y.innerprod(self.core)
-            return np.sqrt(tmp)
+            # Round-off can make the squared norm of a (numerically) zero tensor negative
+            return np.sqrt(abs(tmp))
         return self.full().norm()
 
     def permute(self, order: OneDArray) -> ttensor:
